@@ -422,3 +422,56 @@ func H_C02_colcase() {
 	}
 	verif.Reach("end")
 }
+
+// H_C02_case_guard: CASE evaluates only the branch it takes: the usual guard
+// idiom (a failing ELSE / later WHEN behind a matching WHEN) yields the
+// guarded value, not the failure.
+func H_C02_case_guard() {
+	form := verif.Choose("form", 3)
+	k := verif.IntRange("b", -2, 3)
+	a := verif.F64("a")
+	lim := float64(1 << 40)
+	verif.Assume(verif.All(a == a, a > -lim, a < lim))
+	b := float64(k)
+	doc := Map{"t": []any{Map{"a": a, "b": b, "s": "txt"}}}
+	var sql string
+	switch form {
+	case 0:
+		sql = "SELECT CASE WHEN b = 0 THEN -1 ELSE a DIV b END AS q FROM t"
+	case 1:
+		sql = "SELECT CASE WHEN b = 0 THEN -1 WHEN a DIV b >= 0 THEN 1 ELSE 0 END AS q FROM t"
+	case 2:
+		sql = "SELECT CASE WHEN b >= 0 THEN b ELSE -s END AS q FROM t"
+	}
+	got, err := runQueryQuiet(doc, sql)
+	var want any
+	wantErr := false
+	switch form {
+	case 0:
+		if k == 0 {
+			want = float64(-1)
+		} else {
+			want = float64(int64(a) / int64(b))
+		}
+	case 1:
+		if k == 0 {
+			want = float64(-1)
+		} else if float64(int64(a)/int64(b)) >= 0 {
+			want = float64(1)
+		} else {
+			want = float64(0)
+		}
+	case 2:
+		if k >= 0 {
+			want = b
+		} else {
+			wantErr = true // -s on a string: only when that branch is taken
+		}
+	}
+	if wantErr {
+		verif.Assert(err != nil, "taken-branch-fails")
+	} else {
+		verif.Assert(err == nil && verif.Eq(got, []any{Map{"q": want}}), "only-the-taken-branch-is-evaluated")
+	}
+	verif.Reach("end")
+}
